@@ -12,6 +12,14 @@ OUTSIDE = ["more than 4 pool LRUs, more than 3 requests"]
 POOL = [{"hosts": 2}, {"extend": 0, "paths": 1}, {"extend": 1, "paths": 1}, {"hosts": 2, "paths": 1}]
 
 
+# path stems of exactly one block (p: + 71 + | = 74 bytes), one byte more, two blocks + 1 (149), with pages after them
+LONGPOOLS = [
+    [{"hosts": 2}, {"extend": 0, "pathL": [71]}, {"extend": 0, "pathL": [1]}],
+    [{"hosts": 2}, {"extend": 0, "pathL": [72]}, {"extend": 1, "pathL": [1]}],
+    [{"hosts": 2}, {"extend": 0, "pathL": [146]}, {"extend": 0, "pathL": [146]}],
+]
+
+
 def levels(tier):
     alpha = ["page", "links", "we", "addprefix", "moveprefix", "delwe", "batch"]
     if tier == "quick":
@@ -20,8 +28,12 @@ def levels(tier):
              "defaults": ["domain", "never"], "pool": POOL[:3]},
             {"name": "tpl-n2", "n": 2, "prelude": [["batch", 0, [1, 2, 3]], ["page", 2, True]],
              "alphabet": ["we", "addprefix", "moveprefix", "delwe"], "defaults": ["never"]},
+            {"name": "long-n2", "n": 2, "prelude": [["we", [[0, 3]]]], "alphabet": ["page", "links"], "links_batch": 1, "defaults": ["never"],
+             "pools": LONGPOOLS},
         ]
     return [
+        {"name": "long-n3", "n": 3, "prelude": [["we", [[0, 3]]]], "alphabet": ["page", "links", "we"], "links_batch": 1, "defaults": ["never", "domain"],
+         "pools": LONGPOOLS + [[{"hosts": 2}, {"extend": 0, "pathL": [220]}, {"extend": 0, "pathL": [1, 71]}]]},
         {"name": "n2", "n": 2, "alphabet": alpha + ["rule"], "links_batch": 2, "batch_targets": 2, "defaults": ["domain", "never", "path1"],
          "rule_patterns": ["path1"], "we_two_prefixes": True},
         {"name": "n3", "n": 3, "alphabet": alpha, "links_batch": 1, "batch_targets": 1, "defaults": ["domain", "never"]},
@@ -79,7 +91,10 @@ def battery(E, t, h):
 
 def harness(E):
     P = E.params
-    pool = typed_pool(E, P.get("pool", POOL), L=1)
+    if P.get("pools"):
+        pool = typed_pool(E, P["pools"][E.choose("pool", len(P["pools"]))], L=1)
+    else:
+        pool = typed_pool(E, P.get("pool", POOL), L=1)
     default = P["defaults"][E.choose("default", len(P["defaults"]))]
     ref = Ref()
     ref.default_rule = None if default == "never" else default
